@@ -662,6 +662,12 @@ type stepInfo struct {
 	injected bool
 }
 
+// constructor plans read from the generated code, as Coq cases (filled by runTierB)
+var (
+	ctorCases []string
+	ctorInfo  []any
+)
+
 var undefinedNames = []string{"nope", "Default", "tiny ", " default", "DEFAULT", "defaul", "default,tiny", "*"}
 
 func runTierB(self, out, repo, harnessDir string, rng *vh.RNG, nDesigns, nVals int, res *vh.Result) (cases []string, caseInfo []any, err error) {
@@ -778,7 +784,10 @@ func runTierB(self, out, repo, harnessDir string, rng *vh.RNG, nDesigns, nVals i
 			continue
 		}
 		used++
-		checkConstructors(pools[di], filepath.Join(b.Dir, bu.Key, "gen", "svc", "service.go"), res)
+		if items := checkConstructors(pools[di], filepath.Join(b.Dir, bu.Key, "gen", "svc", "service.go"), res); len(items) > 0 {
+			ctorCases = append(ctorCases, fmt.Sprintf("(%d%%N, %s, %s)", len(ctorCases), pools[di].coqEnv(), vh.CoqList(items)))
+			ctorInfo = append(ctorInfo, map[string]any{"stream": "tierB/constructors", "pool": pools[di]})
+		}
 		p := pools[di]
 		res.Count("tierB_designs")
 		for _, ft := range p.features() {
@@ -881,6 +890,8 @@ func runTierB(self, out, repo, harnessDir string, rng *vh.RNG, nDesigns, nVals i
 		}
 		// ---- what was observed, in generic form
 		var wire any
+		var bodyOnly any             // the body as sent (wire = body + carried attributes)
+		carried := map[string]any{} // attributes read back from response headers / cookies
 		wireOK := false
 		if ob.Resp != nil && ob.Resp.Status == 200 {
 			dec := json.NewDecoder(bytes.NewReader([]byte(ob.Resp.Body)))
@@ -896,7 +907,13 @@ func runTierB(self, out, repo, harnessDir string, rng *vh.RNG, nDesigns, nVals i
 			// reach the client, wherever the response puts them)
 			if m, ok := wire.(map[string]any); ok && wireOK {
 				ty := p.typ(t)
+				bo := map[string]any{}
+				for k, v := range m {
+					bo[k] = v
+				}
+				bodyOnly, carried = bo, map[string]any{}
 				put := func(a, raw string) {
+					defer func() { carried[a] = m[a] }()
 					if _, dup := m[a]; dup {
 						m["?both-body-and-header:"+a] = raw
 						return
@@ -923,6 +940,9 @@ func runTierB(self, out, repo, harnessDir string, rng *vh.RNG, nDesigns, nVals i
 					}
 				}
 			}
+		}
+		if bodyOnly == nil {
+			bodyOnly = wire
 		}
 		var hdr *string
 		if ob.Resp != nil {
@@ -1023,7 +1043,7 @@ func runTierB(self, out, repo, harnessDir string, rng *vh.RNG, nDesigns, nVals i
 			if hdr != nil {
 				h = "(Some " + coqV(*hdr) + ")"
 			}
-			resp = fmt.Sprintf("(Some (%s, %s))", h, coqVal(p, t, wire, lt))
+			resp = fmt.Sprintf("(Some (%s, %s))", h, coqVal(p, t, bodyOnly, lt))
 		}
 		cl := "ONoResp"
 		switch {
@@ -1034,8 +1054,20 @@ func runTierB(self, out, repo, harnessDir string, rng *vh.RNG, nDesigns, nVals i
 		case ob.ClientErr == nil && ob.HasResult:
 			cl = "(OOk " + coqVal(p, t, client, lt) + ")"
 		}
-		perDesign[in.Design] = append(perDesign[in.Design], fmt.Sprintf("mkExch %s %s %s %s %s %s %s %s",
-			vh.CoqBool(in.Method.Coll), coqT(t), fixedTerm, coqV(in.View), xval, vh.CoqBool(in.injected), resp, cl))
+		var mapped []string
+		for _, a := range append(append([]string{}, in.Method.Headers...), in.Method.Cookies...) {
+			mapped = append(mapped, coqA(a))
+		}
+		carriedTerm := "VFNil"
+		if ty := p.typ(t); ty != nil {
+			for i := len(ty.Attrs) - 1; i >= 0; i-- {
+				if v, ok := carried[ty.Attrs[i].Name]; ok {
+					carriedTerm = fmt.Sprintf("(VFCons %s (VLeaf %d) %s)", coqA(ty.Attrs[i].Name), lt.id(v), carriedTerm)
+				}
+			}
+		}
+		perDesign[in.Design] = append(perDesign[in.Design], fmt.Sprintf("mkExch %s %s %s %s %s %s %s %s %s %s",
+			vh.CoqBool(in.Method.Coll), coqT(t), fixedTerm, coqV(in.View), xval, vh.CoqList(mapped), carriedTerm, vh.CoqBool(in.injected), resp, cl))
 	}
 	var dis []int
 	for di := range perDesign {
